@@ -58,7 +58,7 @@ fn plan(tier: Tier) -> Plan {
             exhaustive: false,
         },
         Tier::Thorough => Plan {
-            cases: exhaustive_count(r, c) + 400_000,
+            cases: exhaustive_count(r, c) + 3_000_000,
             time_cap_s: 480,
             case_timeout_s: 20,
             exhaustive: false,
